@@ -239,7 +239,9 @@ class OffsetOperandStub:
                 elif isinstance(token, (Symbol, InstructionPointer)):
                     fixup_active = False
                 else:
-                    assert False  # TODO: really?
+                    # Any other leaf (a decimal or prefixed number, a character literal,
+                    # a bracketed subexpression) is a value, not a local label
+                    fixup_active = False
                 return token
             fixup_label(operand)
 
